@@ -510,6 +510,126 @@ func TestVerifC06(t *testing.T) {
 		h.nontriv[fmt.Sprint("long", li)] = true
 	}
 
+	// several messages written into ONE buffered writer without a flush in between (as
+	// protocol.Writer does when its channel holds several): the bytes are the
+	// concatenation of the messages' own encodings, whatever is already pending
+	// in the buffer when a message starts (4096-byte bufio buffer: every fill
+	// level around the boundary in front of each message kind)
+	if mine() {
+		fillers := []Message{KeepAlive{}, Have{7}, Request{1, 2, 3}, Port{9}}
+		tails := []Message{Piece{3, 16384, payload(100)}, Piece{0, 0, payload(16384)}, Piece{1, 0, nil}, Bitfield{payload(40)}, Request{9, 8, 7},
+			ExtendedMetadata{2, 1, 0, 30, payload(30)}, Extended0{"v", 1, 2, netip.Addr{}, netip.Addr{}, 3, map[string]uint8{"ut_pex": 1}, false, true}, ExtendedPex{1, mk(2, 1, 1), mk(1, 0, 0)}}
+		for _, tail := range tails {
+			for pending := 4060; pending <= 4110; pending++ {
+				res.Add("evaluations", 1)
+				var buf bytes.Buffer
+				w := bufio.NewWriter(&buf)
+				var want []byte
+				emit := func(m Message) bool {
+					b, err := encodeStorrent(m)
+					if err != nil {
+						t.Fatal(err)
+					}
+					want = append(want, b...)
+					if p, ok := m.(Piece); ok {
+						p.Data = append([]byte{}, p.Data...)
+						m = p
+					}
+					return Write(w, m, nil) == nil
+				}
+				// bring the buffer to exactly `pending` unflushed bytes
+				ok := true
+				for len(want) < pending && ok {
+					left := pending - len(want)
+					switch {
+					case left >= 17+4 || left == 17:
+						ok = emit(fillers[2]) // 17 bytes
+					case left >= 9+4 || left == 9:
+						ok = emit(fillers[1]) // 9 bytes
+					case left >= 7+4 || left == 7:
+						ok = emit(fillers[3]) // 7 bytes
+					default:
+						ok = emit(fillers[0]) // 4 bytes
+					}
+				}
+				if len(want) != pending {
+					continue // not reachable with these filler sizes
+				}
+				ok = ok && emit(tail) && emit(Have{1})
+				w.Flush()
+				if !ok || !bytes.Equal(buf.Bytes(), want) {
+					res.Violate("C06/batched-writes", fmt.Sprintf("writing %T with %d bytes already pending in the same buffered writer produces other bytes than the message's own encoding (first difference at byte %d of %d)", tail, pending, firstDiff(buf.Bytes(), want), len(want)),
+						map[string]any{"tail": fmt.Sprintf("%T", tail), "pending": pending})
+					break
+				}
+			}
+			h.nontriv[fmt.Sprintf("batched/%T", tail)] = true
+		}
+	}
+
+	// protocol.Reader with long left-over bytes from the handshake (init longer than
+	// one read of the buffered reader)
+	if mine() {
+		for li, lm := range long {
+			var stream []byte
+			var exp []string
+			for _, m := range lm {
+				b, _ := encodeStorrent(m)
+				stream = append(stream, b...)
+				dm, err := Read(bufio.NewReader(bytes.NewReader(b)), nil)
+				if err != nil {
+					t.Fatal(err)
+				}
+				rm, _ := toRef(dm)
+				exp = append(exp, fmt.Sprintf("%+v", rm))
+			}
+			for _, k := range []int{0, 1, 4095, 4096, 4097, 5000, 8192, 8193, len(stream) - 1, len(stream)} {
+				if k < 0 || k > len(stream) {
+					continue
+				}
+				res.Add("evaluations", 1)
+				c1, c2 := net.Pipe()
+				ch := make(chan Message, 64)
+				done := make(chan struct{})
+				go Reader(c1, append([]byte{}, stream[:k]...), nil, ch, done)
+				go func() {
+					c2.Write(stream[k:])
+					time.Sleep(200 * time.Millisecond)
+					c2.Close()
+				}()
+				var ms []Message
+				timeout := time.After(20 * time.Second)
+			rl:
+				for {
+					select {
+					case m, ok := <-ch:
+						if !ok {
+							break rl
+						}
+						if _, isErr := m.(Error); isErr {
+							break rl
+						}
+						ms = append(ms, m)
+					case <-timeout:
+						break rl
+					}
+				}
+				close(done)
+				c1.Close()
+				var got []string
+				for _, m := range ms {
+					rm, _ := toRef(m)
+					got = append(got, fmt.Sprintf("%+v", rm))
+				}
+				if fmt.Sprint(got) != fmt.Sprint(exp) {
+					res.Violate("C06/reader-long-init", fmt.Sprintf("protocol.Reader given the first %d bytes of a %d-byte stream as left-over handshake bytes decodes %d messages instead of %d (or other ones)", k, len(stream), len(got), len(exp)),
+						map[string]any{"long": li, "init": k})
+					break
+				}
+			}
+		}
+	}
+
 	// the Reader goroutine itself (init bytes + connection), over a pipe
 	if mine() {
 		var stream []byte
